@@ -15,12 +15,16 @@ EXTENDS Integers, Sequences, FiniteSets, TLC, Json
 
 CONSTANTS MaxOps, Pools
 
-Kinds  == {"ae", "rv", "pv", "is", "tn", "pipe"}
+Kinds  == {"ae", "rv", "pv", "is", "tn", "pipe", "pipestall"}
 Faults == {"none", "cutreq", "cutresp", "slowhandler", "handlererr"}
 Op == [kind : Kinds, fault : Faults]
 \* a connection failure makes no sense for every combination: keep the meaningful ones
-Ok(o) == (o.kind = "pipe" => o.fault \in {"none", "cutreq", "cutresp", "handlererr"})
-Scenarios == UNION {{s \in [1..n -> Op] : \A i \in 1..n : Ok(s[i])} : n \in 1..MaxOps}
+\* "pipestall": more requests than the pipeline holds are sent while the consumer of the pipeline stalls for longer than
+\* the transport timeout (back-pressure), then everything is consumed and more requests follow on the same pipeline
+Ok(o) == /\ (o.kind = "pipe" => o.fault \in {"none", "cutreq", "cutresp", "handlererr"})
+         /\ (o.kind = "pipestall" => o.fault = "none")
+Scenarios == UNION {{s \in [1..n -> Op] : /\ \A i \in 1..n : Ok(s[i])
+                                         /\ ((\E i \in 1..n : s[i].kind = "pipestall") => n = 1)} : n \in 1..MaxOps}
 
 VARIABLE cs
 Init == /\ cs \in [ops : Scenarios, pool : Pools, concurrent : BOOLEAN]
